@@ -3,6 +3,8 @@ import PhyVerif.Spec.C12
 import PhyVerif.Lemmas.C12
 import PhyVerif.Model.C12b
 import PhyVerif.Lemmas.C12b
+import PhyVerif.Model.C12c
+import PhyVerif.Lemmas.C12c
 /-!
 # C12 — merged channel and template arrays are block-structured by probe
 Only property theorems + non-vacuity examples; proofs in `Lemmas/C12.lean`.
@@ -29,6 +31,38 @@ theorem channels_block (maps : List (List Nat)) (h : MapsOK maps) (k i : Nat)
     (mergeChannelMaps maps).length = (maps.map List.length).sum ∧
     (channelProbes maps).length = (maps.map List.length).sum :=
   Lemmas.channels_block maps h k i hi
+
+/-- The same block layout for ARBITRARY channel maps (gaps, dead channels, any raw indices; `MapsOK` not
+needed): the channels of probe k are the contiguous block `[prefix_k, prefix_k + nc_k)` of the merged
+channel arrays in input order, entry i holding probe k's raw index i shifted by the probe's raw offset
+`chanOffsets k` (merge.py:207-214: 0 for the first probe, then 1 + the largest shifted raw index of the
+previous probe), labelled k; both merged arrays have one row per input channel. -/
+theorem channels_block_gapped (maps : List (List Nat)) (k i : Nat)
+    (hi : i < (maps.getD k []).length) :
+    (mergeChannelMaps maps).getD (prefixSum (maps.map List.length) k + i) 0 =
+        (maps.getD k []).getD i 0 + (chanOffsets maps).getD k 0 ∧
+    (channelProbes maps).getD (prefixSum (maps.map List.length) k + i) maps.length = k ∧
+    (mergeChannelMaps maps).length = (maps.map List.length).sum ∧
+    (channelProbes maps).length = (maps.map List.length).sum :=
+  Lemmas.channels_block_gapped maps k i hi
+
+/-- … and the merged raw indices of different probes are distinct, for arbitrary (gapped) maps: every
+merged raw index of an earlier probe is strictly below every merged raw index of a later probe.
+Hypothesis `hne` (every probe has at least one channel): the real code raises `ValueError` at
+`array.max()` (merge.py:213) for a probe with an empty `channel_map.npy` (run: 3 probes, the middle one
+with 0 channels → ValueError, inputs untouched); the model totalises that maximum as 0, and without `hne`
+the statement is false in the model (second example below). -/
+theorem raw_indices_apart (maps : List (List Nat)) (hne : ∀ m ∈ maps, m ≠ []) (k l i j : Nat) (hkl : k < l)
+    (hi : i < (maps.getD k []).length) (hj : j < (maps.getD l []).length) :
+    (mergeChannelMaps maps).getD (prefixSum (maps.map List.length) k + i) 0 <
+      (mergeChannelMaps maps).getD (prefixSum (maps.map List.length) l + j) 0 :=
+  Lemmas.raw_indices_apart maps hne k l i j hkl hi hj
+
+/-- Consequently, when no probe lists a raw channel twice, no raw index occurs twice in the merged
+`channel_map.npy` — whatever gaps the maps have. -/
+theorem merged_channel_map_nodup (maps : List (List Nat)) (hne : ∀ m ∈ maps, m ≠ [])
+    (hnd : ∀ m ∈ maps, m.Nodup) : (mergeChannelMaps maps).Nodup :=
+  Lemmas.merged_channel_map_nodup maps hne hnd
 
 /-- Geometry: every probe keeps its positions up to a translation along x … -/
 theorem positions_translated (pos : List (List (Int × Int))) (k : Nat) :
@@ -99,6 +133,19 @@ theorem blockDiag_entries (ms : List (List (List α))) (hsq : ∀ m ∈ ms, ∀ 
       then get2 (ms.getD k []) i (j - prefixSum (ms.map List.length) k) else 0 :=
   Lemmas.blockDiag_entries ms hsq k i j hi
 
+/-- Optional matrices (`similar_templates.npy`, `whitening_mat.npy`, `whitening_mat_inv.npy`,
+merge.py:272-283) present in only SOME probes: the merged file is skipped exactly when at least one probe
+lacks the file (`none` = no such file in that probe's directory) … -/
+theorem optional_skipped_iff (ms : List (Option (List (List α)))) :
+    mergeOptional ms = none ↔ none ∈ ms :=
+  Lemmas.optional_skipped_iff ms
+
+/-- … and it is written exactly when every probe has it, as the block-diagonal matrix of the per-probe
+matrices in probe order (entries: `blockDiag_entries`). -/
+theorem optional_written (ms : List (Option (List (List α)))) (M : List (List α)) :
+    mergeOptional ms = some M ↔ ∃ l, ms = l.map some ∧ M = blockDiag l :=
+  Lemmas.optional_written ms M
+
 /-- Merged parameters keep the (first probe's) sampling rate and declare the summed raw channel
 count. -/
 theorem params_ok (p : Nat × Nat) (rest : List (Nat × Nat)) :
@@ -118,6 +165,14 @@ example : mergePositions [[(0, 0), (0, 20)], [(0, 0), (0, 20)]] = [(0, 0), (0, 2
 example : mergeTemplates [[[[1, 2]], [[3, 4]]], [[[5, 6, 7]]]] =
     ([[[1, 2, 0, 0, 0]], [[3, 4, 0, 0, 0]], [[0, 0, 5, 6, 7]]] : List (List (List Int))) := by decide
 example : blockDiag [[[1, 2], [3, 4]], [[5]]] = ([[1, 2, 0], [3, 4, 0], [0, 0, 5]] : List (List Int)) := by decide
+
+-- maps with gaps: blocks in input order, raw indices apart
+example : mergeChannelMaps [[1, 3, 0], [7, 2], [5, 0, 9]] = [1, 3, 0, 11, 6, 17, 12, 21] ∧
+    chanOffsets [[1, 3, 0], [7, 2], [5, 0, 9]] = [0, 4, 12] := by decide
+-- `hne` of `raw_indices_apart` cannot be dropped: an (unloadable) probe without channels resets the offset
+example : mergeChannelMaps [[0, 1], [], [0]] = [0, 1, 1] := by decide
+example : mergeOptional [some [[1, 2], [3, 4]], some [[5]]] = some ([[1, 2, 0], [3, 4, 0], [0, 0, 5]] : List (List Int)) := by decide
+example : mergeOptional [some [[1, 2], [3, 4]], none, some [[5]]] = (none : Option (List (List Int))) := by decide
 
 example : mergePcInd [[1, 3, 0], [3, 1, 2]] [[[0, 2], [2, 1]], [[2, 0], [1, 0]]] = [[0, 2], [2, 1], [5, 3], [4, 3]] := by decide
 example : chanOffsets [[1, 3, 0], [3, 1, 2]] = [0, 4] ∧ chanIndexOffsets [[1, 3, 0], [3, 1, 2]] = [0, 3] := by decide
